@@ -283,8 +283,17 @@ def cmdTargets (c : Cmd) (ch i : Nat) : Bool := c.g.chan == ch && c.g.id == i
 
 def judgeLine (g : Ghost) (pre post : State) (isSetMeta : Bool) (cmds : List Cmd) : String × Ghost :=
   -- J1 at most one active task per channel
+  -- the known same-batch class is exactly: the batch re-activates a TERMINAL task by a free-form
+  -- advance/claim (the active-index check reads the committed store); every other double activation is plain
+  let reactivates := cmds.any (fun c =>
+    (c.kind == .advance || c.kind == .claim) &&
+    (match pre.task? c.g.chan c.g.id, post.task? c.g.chan c.g.id with
+     | some t, some t' => t.terminal && t'.isActive
+     | _, _ => false))
   let v1 := if pre.oneActive && !post.oneActive then
-              (if cmds.length ≥ 2 then "viol:two-active:same-batch" else "viol:two-active") else "ok"
+              (if cmds.length ≥ 2 && reactivates then "viol:two-active:same-batch:reactivate"
+               else if (cmds.filter (fun c => c.kind == .create || c.kind == .createg)).length ≥ 2 then "viol:two-active:same-batch:create"
+               else "viol:two-active") else "ok"
   -- J2 stored metadata valid
   let v2 := if !post.metasValid then "viol:meta-invalid" else "ok"
   -- J3 leadership / ISR change only by a cutover whose stored proof matches the current meta (singleton lines)
